@@ -652,15 +652,33 @@ func vfH_origin_urls() {
 	vfClockMaxStep(int64(time.Second))
 	vfUseReal("net/url.Parse")
 	vfUseRealPkg("net/url")
-	host := vfPick([]string{"example.com", "example.com:8080", "[2001:db8::1]:8080", "192.0.2.7"})
-	scheme := vfPick([]string{"https", "http"})
-	userinfo := vfPick([]string{"", "user@", "example.com@", "example.com:8080@", "user:pw@"})
+	symBytes := vfParam("sym", 0)
+	hosts := []string{"example.com", "example.com:8080", "[2001:db8::1]:8080", "192.0.2.7"}
+	if symBytes > 0 {
+		hosts = append(hosts, "sk.example") // letters that non-ASCII runes fold to (U+017F, U+212A)
+	}
+	host := vfPick(hosts)
+	scheme, userinfo := "https", ""
+	if symBytes == 0 {
+		scheme = vfPick([]string{"https", "http"})
+		userinfo = vfPick([]string{"", "user@", "example.com@", "example.com:8080@", "user:pw@"})
+	}
 	hostNoPort, port := host, ""
 	if i := strings.LastIndex(host, ":"); i >= 0 && i > strings.LastIndex(host, "]") {
 		hostNoPort, port = host[:i], host[i:]
 	}
 	var ohost string
-	switch vfChoose(9) {
+	v := 9
+	if symBytes == 0 {
+		v = vfChoose(9)
+	}
+	switch v {
+	case 9:
+		// two arbitrary bytes in place of two characters of the host: every look-alike,
+		// delimiter, percent sign, control or non-ASCII byte the real parser may meet
+		rep := vfParam("rep", symBytes) // characters replaced by the symBytes arbitrary bytes
+		k := vfPick([]int{0, 1, len(hostNoPort) - rep}) // at the start, inside, and right before the port / end
+		ohost = hostNoPort[:k] + vfString(symBytes) + hostNoPort[k+rep:] + port
 	case 0:
 		ohost = vfCaseVariant(hostNoPort) + port
 	case 1:
@@ -680,7 +698,10 @@ func vfH_origin_urls() {
 	case 8:
 		ohost = hostNoPort + ":" // empty port
 	}
-	tail := vfPick([]string{"", "/", "/a?b=c", "?x", "#f"})
+	tail := ""
+	if symBytes == 0 {
+		tail = vfPick([]string{"", "/", "/a?b=c", "?x", "#f"})
+	}
 	origin := scheme + "://" + userinfo + ohost + tail
 	hdr := http.Header{"Connection": {"Upgrade"}, "Upgrade": {"websocket"}, "Sec-Websocket-Version": {"13"},
 		"Sec-Websocket-Key": {"dGhlIHNhbXBsZSBub25jZQ=="}, "Origin": {origin}}
